@@ -483,7 +483,14 @@ class MagicProperties:
                 # with the update merged in): the sub-property is rebuilt from it, which is
                 # much cheaper than updating a copy level by level, and assigned only when
                 # all of its values are valid
-                object.__setattr__(self, f"_{k}", type(current)(**v))
+                try:
+                    new = type(current)(**v)
+                except TypeError as err:
+                    # an unknown property name given to a class without `**kwargs`
+                    raise AttributeError(
+                        f"{type(current).__name__} has no such property: {err}"
+                    ) from err
+                object.__setattr__(self, f"_{k}", new)
             else:
                 setattr(self, k, v)
         return self
